@@ -61,6 +61,10 @@ CHECKS = {
          "Setters must accept exactly the documented ranges (and equal-value idempotence); every Ok result of to_naive_date, to_naive_time, to_naive_datetime_with_offset, to_datetime and to_datetime_with_timezone must agree with every supplied field (second 60 <-> leap second, timestamp equal or +1 on a leap second); uncorrupted, determinate, sufficient sets must resolve to exactly the value, uncorrupted insufficient sets must give NOT_ENOUGH, sufficient contradictory sets IMPOSSIBLE or OUT_OF_RANGE; nothing may panic.",
          "Trusted base: field derivation and sufficiency rules in harness/src/props/c14.rs (from the documented list of sufficient combinations) and R-cal. Not judged (statement silent): century/two-digit fields on negative years, indeterminate year groups, a leap-second value without its second field, a timestamp with a missing non-zero second.",
          "DESIGN.md section 3 C14"),
+ "C15": ("proptest API sweep over 96 public non-deprecated fallible entry points with receivers at both range ends (incl. headroom wall clocks) and i64 arguments biased to integer extremes and field limits; arbitrary/near-valid/damaged text through every parser with strict and lenient format items; deterministic item-count bound on StrftimeItems; panic monitor (catch_unwind) + invariant predicates on every returned value; thorough tier adds libFuzzer targets",
+         "Every listed operation must return normally for every generated argument tuple, and every value it returns must satisfy its type's invariants as observable through the public API (date equals the date of its own fields and lies in [MIN, MAX], time fields in range, DateTime within [MIN_UTC, MAX_UTC], TimeDelta in its closed range). Iterating StrftimeItems::new / new_lenient over any format string must stop within a bound proportional to its length (deterministic, no timer) and report Item::Error exactly for invalid strings. The monitor also wraps every chrono call of the other nineteen checks, so their generated inputs count here as well.",
+         "Trusted base: harness/src/guard.rs (catch_unwind + silent hook) and the invariant predicates in harness/src/props/c15.rs; the harness and the fuzz targets are built with debug assertions and overflow checks on. Hangs other than the item-stream bound surface only as the driver's watchdog (exit 2).",
+         "DESIGN.md section 3 C15"),
  "C16": ("proptest: model-driven TZif files (v1/v2/v3, 0-2000 transitions, extreme 64-bit times) and grammar-driven TZ strings that must be accepted with an identical structural dump; twenty classes of structured mutations and fifteen TZ-string defects that must be rejected; byte-flipped/header-randomised/arbitrary bytes; exhaustive strict prefixes of sampled files; every system zoneinfo file; panic monitor + counting allocator",
          "Accepted inputs: the hook's structural dump (transition times/type indices, types, footer rule) must equal exactly what the reference writer wrote, and for system files what the independent reader reads. Rejected inputs: each mutation introduces one defect by construction (truncation, magic/version, count mismatch or extreme, unsorted/duplicate transitions, index out of bounds, unterminated abbreviation, dst byte, forbidden indicator pair, five footer defects, utoff = i32::MIN, trailing byte) and must yield Err. All inputs: no panic, peak heap <= 16 x input + 64 KiB (per-thread counting global allocator), and every accepted zone answers both lookups at i64 extremes, at chrono's MIN/MAX and around its transitions without panicking. Thorough tier adds libFuzzer targets tzif/tzstring with the same oracle.",
          "Trusted base: reference TZif writer/reader and TZ grammar in harness/src/refmodel/zone.rs (validated against CPython's zoneinfo), the counting allocator in harness/src/alloc_track.rs. Hangs would surface as the driver's watchdog (exit 2), not as violations.",
